@@ -39,8 +39,6 @@ for f in "$ROOT"/mutants/*.patch "$ROOT"/seeded/*/patch.diff; do
   fi
   PATCHES+=("$f")
 done
-RESULT="$ROOT/mutants/RESULTS.txt"
-[ ${#PATS[@]} -eq 0 ] && : > "$RESULT"
 pass=0; fail=0
 for f in "${PATCHES[@]}"; do
   case "$f" in
@@ -70,7 +68,24 @@ for f in "${PATCHES[@]}"; do
     fi
     echo "$name: $verdict by $id $TIER in ${dur}s ($tests) $sig"
   fi
-  [ ${#PATS[@]} -eq 0 ] && echo "$name $verdict $tests" >> "$RESULT"
+  # results tables are updated in place (one line per patch)
+  case "$name" in seeded/*) RF="$ROOT/seeded/RESULTS.txt";; *) RF="$ROOT/mutants/RESULTS.txt";; esac
+  python3 - "$RF" "$name" "$verdict" "$tests" "$id" "$TIER" "${sig:-}" <<'PY'
+import sys, os
+rf, name, verdict, tests, pid, tier, sig = sys.argv[1:8]
+lines = []
+if os.path.exists(rf):
+    lines = [l.rstrip("\n") for l in open(rf) if l.strip() and not l.startswith(name + " ")]
+old_tests = "-"
+if tests == "-" and os.path.exists(rf):
+    for l in open(rf):
+        if l.startswith(name + " "):
+            parts = l.split()
+            if len(parts) >= 3: old_tests = parts[2]
+lines.append("%s %s %s %s-%s %s" % (name, verdict, tests if tests != "-" else old_tests, pid, tier, sig.replace("\n", " ")[:140]))
+lines.sort()
+open(rf, "w").write("\n".join(lines) + "\n")
+PY
   git -C "$SCRATCH/repo" checkout -q -- . ; git -C "$SCRATCH/repo" clean -fdq -e target
 done
 echo "detected $pass, not detected $fail"
